@@ -616,4 +616,22 @@ example : edit C17_exampleArray (.setItem 2 (.num 5)) = none ∧ edit C17_exampl
   · simp [listEdit, operandPairs, itemPair]
   · simp [listEdit, operandPairs, itemPair]
 
+/-- the hypothesis of `C17_setitem_number_keeps_uncertainty` is satisfiable (negative index) -/
+example : ∃ a', setItem C17_exampleArray (-1) (.num 5) = some a' ∧
+    pairs a' = [(1, 0.1), (5, 0.2)] := by
+  have h := (C17_refines_list_conv C17_exampleArray (.setItem (-1) (.num 5))).1
+  refine h _ ?_
+  simp [listEdit, pyIndex, C17_exampleArray, pairs_mk]
+
+/-- the aggregates on a concrete array: the sum of `[1 ± 0.1, 2 ± 0.2]` has value 3 and
+    squared uncertainty 0.05 -/
+example : (ArrayEdit.sum C17_exampleArray).1 = 3 ∧ (ArrayEdit.sum C17_exampleArray).2 ^ 2 = 0.05 := by
+  rw [C17_sum]
+  have hv : values C17_exampleArray = [1, 2] := by simp [values, C17_exampleArray, mk]
+  have he : errors C17_exampleArray = [0.1, 0.2] := by simp [errors, C17_exampleArray, mk]
+  rw [hv, he]
+  constructor
+  · norm_num
+  · rw [Real.sq_sqrt (by norm_num)]; norm_num
+
 end QExPy.ArrayEdit
